@@ -49,8 +49,10 @@ def classify(ctx: HandlerContext) -> Classification:
             and len(token) > 2
             and ("x" in token or "X" in token)
         ):
-            # -Hx cmd, -xcmd: combined and attached forms are not taken apart
-            return Classification("ask", description=f"fd {token}")
+            # -Hx cmd, -xcmd: what follows the letter in the same word starts the command
+            k = min(token.find(c) for c in "xX" if c in token)
+            exec_flag = "-" + token[k]
+            head = [token[k + 1 :]] if token[k + 1 :] else []
         if exec_flag is None:
             i += 1
             continue
